@@ -41,6 +41,7 @@ ASSUMPTIONS = [
     "a bot message is supplied whenever output rails are selected and dialog rails are not (the documented usage); retrieval rails only accept",
     "rails have the shape `$v = execute action; if blocked: bot refuse to respond / create event XException; stop; if rewrite: $text = …`; one utterance per turn",
     "timestamps / durations of the generation log are not modelled",
+    "turns stay below the runtime's safety cap of 100 new events (a handful of thorough cases with 3+2+2 rails and a two-call dialog exceed it: generate raises 'Too many events.'; skipped and counted as event-cap-hit)",
 ]
 EXHAUSTIVE = {"quick": False, "thorough": True}
 
@@ -227,6 +228,14 @@ def gen_cases(rng, tier):
     return [gen_log_case(rng) for _ in range(n_log)] + gen_e2e(rng, tier)
 
 
+def escalate(rng, case, tier):
+    """focused search after a broken proof / tie / correspondence: the corpus-like table first, then fresh e2e and log cases"""
+    out = gen_e2e(rng, "quick") + gen_e2e(rng, "quick") + [gen_log_case(rng) for _ in range(4000)]
+    if tier == "thorough":
+        out += gen_e2e(rng, "thorough")
+    return out
+
+
 # ----------------------------------------------------------------------------- implementation
 
 def worker_init():
@@ -342,6 +351,8 @@ def compare(case, obs, mouts):
             if m["llm_calls"] != obs["llm_calls"]:
                 return f"llm_calls_count impl {obs['llm_calls']} model {m['llm_calls']}"
         return None
+    if capped(obs):
+        return None
     if "exc" in obs:
         return f"generate raised {obs['exc']} (model: {m.get('reply')})"
     if m["res"] != "ok":
@@ -399,6 +410,11 @@ def chain(rails, text):
     return ("ok", text), seen
 
 
+def capped(obs):
+    """`RuntimeV1_0.generate_events` raises after more than 100 new events (configurations with many rails)."""
+    return obs.get("exc", "").startswith("Exception: Too many events")
+
+
 def well_shaped(alog):
     """every rail start is followed by its own finish before the next start, except possibly the last one"""
     open_ = False
@@ -435,6 +451,8 @@ def oracle(case, obs):
         return None
     # ---- e2e
     cfg = case["cfg"]
+    if capped(obs):
+        return None  # the runtime's safety cap (> 100 events in one turn) is outside the model; counted in the tags
     if "exc" in obs:
         return f"generate raised {obs['exc']}"
     sel = set(CATS) if (case.get("no_options") or case["opts"] is None) else set(case["opts"])
@@ -513,7 +531,7 @@ def signature(case, obs, msg):
 def nontrivial(case, obs):
     if case["kind"] == "log":
         return any(e[0] in ("in", "out") for e in case["log"])
-    return bool(obs.get("calls")) or obs.get("llm_calls", 0) > 0
+    return not capped(obs) and (bool(obs.get("calls")) or obs.get("llm_calls", 0) > 0)
 
 
 def tags(case, obs):
@@ -525,6 +543,8 @@ def tags(case, obs):
         return t
     cfg = case["cfg"]
     sel = "noopt" if case.get("no_options") else ("default" if case["opts"] is None else "+".join(c[0] for c in case["opts"]) or "none")
+    if capped(obs):
+        return ["kind:e2e", "event-cap-hit"]
     t = ["kind:e2e", "opts:" + sel, "dialog:" + cfg["dialog"], "def:" + cfg["rail_def"], "n_in:%d" % len(cfg["input"]), "n_out:%d" % len(cfg["output"])]
     if cfg.get("exceptions"):
         t.append("exceptions-mode")
